@@ -764,7 +764,10 @@ func (a *AD) build(all []*AD) *atlas.AtlasEntry {
 		}
 		return atlas.BuildEntry((*Shape)(nil)).KeyedUnion().Of(members)
 	case "mm":
-		ent.MapMorphism = &atlas.MapMorphism{KeySortMode: sortModes[a.mode]}
+		// through the builder API, as applications do
+		be := atlas.BuildEntry(reflect.Zero(a.t.rt).Interface()).MapMorphism().SetKeySortMode(sortModes[a.mode]).Complete()
+		be.Tagged, be.Tag = a.tagd, a.tag
+		return be
 	}
 	return ent
 }
